@@ -30,7 +30,10 @@ REQUIRED = {t: {"columns_needing_stubs": 50, "choices_hook_or_fallback": 50, "do
 
 def gen_cases(tier, seed):
     n = 300 if tier == "quick" else 40000
-    return [{"seed": seed * 100057 + i} for i in range(n)]
+    cases = [{"seed": seed * 100057 + i} for i in range(n)]
+    if tier == "thorough":
+        cases.append({"kind": "repo-tests", "seed": seed, "_cost": 500})
+    return cases
 
 
 def make_dist(rng):
@@ -128,6 +131,14 @@ def check_sample(res, L, N, keys, sizes, tap, ctx, weights=None):
 def run_case(case):
     import gcmpy
     from gcmpy import JointDegreeNames as N_, GCMAlgorithmNames as G
+    if case.get("kind") == "repo-tests":
+        from ..repotests import run as _run_repo_tests
+        res = Result()
+        _run_repo_tests(ID, res)
+        res.nontrivial = True
+        res.digest = "repo-tests"
+        res.sample = {"kind": "repo-tests", "notes": res.notes[:2]}
+        return res
     res = Result()
     rng = random.Random(case["seed"])
     T, keys, w, sizes = make_dist(rng)
